@@ -111,7 +111,11 @@ def make_prop_val_node(
         if deletable:
 
             def deleter(self):
-                setattr(self, hidden_param, None)
+                # the value is set to None; the node stays, so that the property can be set again
+                # and so that the input that prints it still finds a node
+                node = getattr(self, hidden_param)
+                if node is not None:
+                    node.value = None
 
             getter = getter.deleter(deleter)
         return getter
